@@ -43,11 +43,11 @@ T = {
             "The restriction table is a TLA+ predicate over grammars-as-data; TLC evaluates the verdict for every corpus grammar (and checks it against the generator's intent); each grammar goes through the library, Compile::run and peginator-cli in its own process (panic, stack overflow, hang, exit status, Result observed); seeded mutations, truncations and deep nestings check totality on arbitrary strings.", "totality on arbitrary strings is sampled, not enumerated; deep nesting (>= ~1500 levels) overflows the front end's stack: recorded as known findings", "4 C15"),
     "C17": (MC, "three bootstrap stages built for real and both front ends run on text corpora; the observation sequence validated by TLC against Bootstrap.tla",
             "Stage 1 is generated by the tree's generator from grammar.ebnf, a generator is built around it in a scratch copy and stage 2 generated; TLC accepts the recorded observations iff shipped = stage 1 = stage 2 (header aside) and every text (valid, invalid, mutated, all repository grammars) is read to the same Debug tree or the same error by the shipped and the regenerated front end. That both front ends denote what grammar.ebnf says is C12's Meta run.", "thin trace specification (equality of digests); rustfmt normalises layout", "4 C17"),
-    "C18": (MC, "TLC over all histories of the BuildScript protocol (intended and implementation-shaped) + replay of every history against the real Compile",
+    "C18": (MC, "TLC over all histories of the BuildScript protocol (intended and implementation-shaped) + replay of every history against the real Compile; the intended protocol's properties also proved for unbounded histories with TLAPS (thorough tier)",
             "The file protocol {edit grammar, change prefix, delete destination, run} is model-checked for Fresh / Untouched / FailSafe in its intended form; the implementation-shaped form (run_on_single_file line by line) may deviate only in the two recorded findings (TLC must still find the flaw); every TLC history is replayed against the real Compile in a scratch directory (file / explicit destination / directory mode, formatting off and on) and the predicates are evaluated on the real files after every run.", "expected bytes come from a fresh library compilation; directory mode: one grammar file for the single-file histories plus the two-file model BuildScriptDir with every listing order; two known findings (known_findings.json)", "0a, 4 C18"),
     "C19": (MC, "TLC Balanced invariant + NestingMonitor trace validation of real ParseTracer callbacks; parse_with_trace vs parse",
             "depth is a natural number in the model, every exit path is a distinct action; the callback sequence of a recording ParseTracer is validated by TLC against NestingMonitor; results with RecTracer and the library's IndentedTracer must equal the plain result.", "stderr of IndentedTracer is discarded", "4 C19"),
-    "C16": ("other", "byte comparison of the three routes' output across fresh processes, accepted by the Routes.tla trace specification (one inferred function F); peginate! compared behaviourally",
+    "C16": ("other", "byte comparison of the four routes' output (library, CLI, Compile::file, Compile::directory) across fresh processes, accepted by the Routes.tla trace specification (one inferred function F); peginate! compared behaviourally",
             "Decided by byte identity, as the design says honestly: every observation (route, grammar, settings, process, digest of the code after the route's framing) is validated by TLC against Routes.tla, which infers F from the first observation and rejects any later disagreement or wrong framing; the macro route is compiled next to the library route in the harness and the full outcomes compared on all inputs.", "thin specification: TLA+ contributes the composition rule only; macro expansion is compared by behaviour and Debug shape, not token by token", "4 C16"),
     "C20": (MC, "TLC over all interleavings of the Session model (per-call state; per-thread and shared caches refuted) + concurrent real parses vs sequential run + CacheMonitor on per-thread traces",
             "The architectural claim (all parse state lives in the call) is an explicit model whose interleavings TLC enumerates, together with the two designs a refactoring could slip into, which TLC must refute; on the real code the full outcome (result, tracer callbacks, cursor advances) of every case parsed from many threads in different orders must equal the sequential outcome, and each thread's cache hits are validated against CacheMonitor.", "real thread schedules are sampled, not enumerated (loom / shuttle are outside this technique family)", "4 C20"),
